@@ -1,24 +1,32 @@
 import Mdsort.Model.Decode
 import Mdsort.Spec.Decode
+import Mdsort.Proofs.Qp
+import Mdsort.Proofs.B64Bits
+import Mdsort.Proofs.B64
+import Mdsort.Proofs.Rfc2047
 
-/-! Helper lemmas for C16 (decode.c model = reference decoders). -/
+/-! Helper lemmas for C16 (decode.c model = reference decoders).
+
+The proofs live in `Proofs/Qp.lean` (quoted-printable), `Proofs/B64Bits.lean` (finite facts
+about the alphabet and 6-bit arithmetic), `Proofs/B64.lean` (`b64_pton`) and
+`Proofs/Rfc2047.lean` (encoded words); this file states the five lemmas used by `Props/C16.lean`. -/
 
 namespace Mdsort.Proofs
 open Mdsort
 
-theorem b64idx_eq_b64val : (∀ c : UInt8, Model.b64idx c = (Spec.b64val c).map UInt8.ofNat) ∧ Gen.pad64 = 61 := by
-  sorry
+theorem b64idx_eq_b64val : (∀ c : UInt8, Model.b64idx c = (Spec.b64val c).map UInt8.ofNat) ∧ Gen.pad64 = 61 :=
+  ⟨b64idx_eq_b64val', rfl⟩
 
-theorem b64pton_eq_spec (s : Bytes) (n : Nat) (h : s.length < n) : Model.b64pton s n = Spec.b64 s := by
-  sorry
+theorem b64pton_eq_spec (s : Bytes) (n : Nat) (h : s.length < n) : Model.b64pton s n = Spec.b64 s :=
+  b64pton_eq_spec' s n h
 
-theorem b64_spec_len (s out : Bytes) (h : Spec.b64 s = some out) : 4 * out.length ≤ 3 * s.length := by
-  sorry
+theorem b64_spec_len (s out : Bytes) (h : Spec.b64 s = some out) : 4 * out.length ≤ 3 * s.length :=
+  b64_spec_len' s out h
 
 theorem qpLoop_eq_spec (us : Bool) (s : Bytes) : Model.qpLoop us s [] = Spec.qp us s := by
-  sorry
+  simpa using qpLoop_gen us s []
 
-theorem rfc2047_eq_spec (s : Bytes) : Model.rfc2047DecodeRaw s = Spec.rfc2047 s := by
-  sorry
+theorem rfc2047_eq_spec (s : Bytes) : Model.rfc2047DecodeRaw s = Spec.rfc2047 s :=
+  rfc2047_eq_spec' s
 
 end Mdsort.Proofs
